@@ -19,6 +19,7 @@ func init() {
 		Quick: []ruleDef{
 			{"TAB-PRIORITY", 12, ruleTabPriority},
 			{"JOIN", 2, ruleJoinFiles},
+			{"JOIN-IMPORTS", 2, ruleJoinImports},
 		},
 	})
 }
@@ -239,4 +240,84 @@ func ruleJoinFiles(c *Ctx, r *R) {
 		r.undecided("joinFiles", c.Pos(fd), "expected two append sites (first file, later files)")
 	}
 	_ = types.Typ
+}
+
+// JOIN-IMPORTS: the files of a package are joined into one tree and compiled by one
+// compiler, but an import name belongs to the *file* that declares it (two files may import
+// different packages under the same name: math/rand and crypto/rand).  A table keyed by
+// the alias alone makes the file that happens to be joined last win.  So compile("import")
+// also records the import under a key that includes the importing file, and every reader of
+// the alias table consults that per-file entry first.
+func ruleJoinImports(c *Ctx, r *R) {
+	cs, err := c.compileSwitch()
+	if err != nil {
+		r.undecided("compile", "-", err.Error())
+		return
+	}
+	sc := cs.ByLabel["import"]
+	if sc == nil {
+		r.undecided("import", "-", "no compile-case")
+		return
+	}
+	perFileWrite := false
+	ast.Inspect(sc.Clause, func(n ast.Node) bool {
+		if as, ok := n.(*ast.AssignStmt); ok {
+			for _, l := range as.Lhs {
+				if ix, ok := unparen(l).(*ast.IndexExpr); ok && strings.Contains(nosp(c.Src(ix.Index)), ".Pos.Filename") {
+					perFileWrite = true
+				}
+			}
+		}
+		return true
+	})
+	r.check(perFileWrite, "import per-file", c.Pos(sc.Clause), "the import is also recorded under a key that names the importing file",
+		"compile(\"import\") records an import under its alias only: all files of a package share one alias table, so when a.go imports \"x/util\" and b.go imports \"y/util\" both files call whichever package the file joined last imported — and the result changes when the files are renamed")
+	// readers
+	n := 0
+	for _, name := range c.FuncNames() {
+		fd := c.Func(name)
+		if fd.Body == nil || !strings.HasSuffix(c.Fset.Position(fd.Pos()).Filename, "compiler.go") {
+			continue
+		}
+		var reads []*ast.IndexExpr
+		var perFileReads []*ast.IndexExpr
+		ast.Inspect(fd.Body, func(nd ast.Node) bool {
+			ix, ok := nd.(*ast.IndexExpr)
+			if !ok {
+				return true
+			}
+			if _, isMap := c.TypeOf(ix.X).Underlying().(*types.Map); !isMap {
+				return true
+			}
+			// skip writes
+			if as, ok := c.Parent(ix).(*ast.AssignStmt); ok {
+				for _, l := range as.Lhs {
+					if unparen(l) == ast.Expr(ix) {
+						return true
+					}
+				}
+			}
+			if strings.HasSuffix(nosp(c.Src(ix.X)), ".Imports") {
+				reads = append(reads, ix)
+			}
+			if strings.Contains(nosp(c.Src(ix.Index)), ".Pos.Filename") {
+				perFileReads = append(perFileReads, ix)
+			}
+			return true
+		})
+		for _, rd := range reads {
+			n++
+			first := false
+			for _, pf := range perFileReads {
+				if pf.Pos() < rd.Pos() {
+					first = true
+				}
+			}
+			r.check(first, "alias read "+name, c.Pos(rd), "the per-file entry is consulted before the package-wide alias table",
+				name+" resolves an import alias through the package-wide table without consulting the importing file's own entry first: a selector in a.go can resolve to the package b.go imported under the same name")
+		}
+	}
+	if n == 0 {
+		r.undecided("alias read", "-", "no reader of the import alias table found")
+	}
 }
